@@ -669,6 +669,16 @@ class V:
             raise Unsupported("denominator in a position that needs a plain term")
         return to_z3(n)
 
+    def normalized(self) -> "V":
+        """Polynomial normal form of every coefficient (z3's sum-of-monomials simplifier); identically-zero
+        components disappear.  Used in contexts with few variables (C04: one rotation parameter)."""
+        out = {}
+        for b, (r, i) in self.c.items():
+            nr = r if is_const(r) else _som(r)
+            ni = i if is_const(i) else _som(i)
+            out[b] = (nr, ni)
+        return V(self.ctx, out, dict(self.den))
+
     def sqrt_gen(self) -> "V":
         """Positive square root as a *generator* g with g*g -> radicand (exact radical arithmetic,
         products of equal roots reduce, no solver variable).  The radicand is ASSUMED >= 0: a stated
@@ -699,6 +709,54 @@ class V:
                     raise Unsupported("sqrt over a denominator of unknown sign")
         scale = self._den_term(odd) if odd else ONE
         comps = {b: (rmul(r, scale), ZERO) for b, (r, i) in self.c.items()}
+        uni = getattr(ctx, "univariate", None)
+        if uni is not None:
+            comps = V(ctx, comps).normalized().c
+            if not comps:
+                return ctx.const(0)
+            if set(comps) == {B1}:
+                # radicand = c * prod f_i^e_i over Q[t]: factors without real roots and of even multiplicity
+                # leave the root (they have constant sign); the rest stays under the radical
+                import sympy as sp
+
+                zt, st = uni
+                term = comps[B1][0]
+                poly = sp.Poly(z3_poly_to_sympy(to_z3(term), {str(zt): st}), st)
+                c0, factors = sp.factor_list(poly.as_expr(), st)
+                c0 = sp.Rational(c0)
+                res = None
+                out_poly = sp.Integer(1)
+                gens = []
+                for f_, e_ in factors:
+                    fp = sp.Poly(f_, st)
+                    if fp.LC() < 0:  # normalise the sign of the irreducible factor
+                        fp, c0 = -fp, (c0 * (-1) ** e_)
+                    no_real_root = fp.count_roots() == 0
+                    if no_real_root and fp.eval(0) < 0:
+                        fp, c0 = -fp, (c0 * (-1) ** e_)
+                    if e_ // 2:
+                        if not no_real_root and (e_ // 2) % 2:
+                            # |f|^(odd): keep f^2 under a radical of its own (generator of f^2)
+                            gens.append(("abs", fp))
+                            out_poly *= fp.as_expr() ** (e_ // 2 - 1)
+                        else:
+                            out_poly *= fp.as_expr() ** (e_ // 2)
+                    if e_ % 2:
+                        gens.append(("sqrt", fp))
+                if c0 < 0:
+                    raise Unsupported("negative radicand in an assumed-real square root")
+                res = ctx.sqrt_rational(Fraction(int(c0.p), int(c0.q))) * V(ctx, {B1: (sympy_poly_to_z3(out_poly, {st: zt}), ZERO)})
+                table = ctx.__dict__.setdefault("poly_generators", {})
+                for kind, fp in gens:
+                    key_ = (kind, str(fp.as_expr()))
+                    name_ = table.get(key_)
+                    if name_ is None:
+                        name_ = f"{'r' if kind == 'sqrt' else 'a'}{len(table)}[{fp.as_expr()}]"
+                        table[key_] = name_
+                        sq_expr = fp.as_expr() if kind == "sqrt" else fp.as_expr() ** 2
+                        ctx.gen_square[name_] = sympy_poly_to_z3(sq_expr, {st: zt})
+                    res = res * V(ctx, {frozenset([name_]): (ONE, ZERO)})
+                return V(ctx, res.c, {**res.den, **{a: e for a, e in even.items() if e}})
 
         def canon(t):
             # canonical key: z3's sum-of-monomials normal form (only for terms of moderate size), so that
@@ -885,6 +943,57 @@ def atoms_nonzero(ctx: Ctx, first_n: int | None = None) -> list:
     return out
 
 
+def z3_poly_to_sympy(t, var_map: dict):
+    """z3 polynomial term (+, *, unary minus, numerals, variables of var_map) -> sympy expression"""
+    import sympy as sp
+
+    cache: dict = {}
+
+    def go(u):
+        i = u.get_id()
+        if i in cache:
+            return cache[i]
+        if z3.is_rational_value(u):
+            r = sp.Rational(u.numerator_as_long(), u.denominator_as_long())
+        elif z3.is_const(u) and u.decl().kind() == z3.Z3_OP_UNINTERPRETED:
+            name = str(u)
+            if name not in var_map:
+                raise Unsupported(f"variable {name} in a univariate context")
+            r = var_map[name]
+        elif z3.is_add(u):
+            r = sp.Add(*[go(c) for c in u.children()])
+        elif z3.is_mul(u):
+            r = sp.Mul(*[go(c) for c in u.children()])
+        elif z3.is_sub(u):
+            ch = [go(c) for c in u.children()]
+            r = ch[0] - sp.Add(*ch[1:])
+        elif z3.is_app_of(u, z3.Z3_OP_UMINUS):
+            r = -go(u.children()[0])
+        else:
+            raise Unsupported(f"non-polynomial z3 term {u.decl().name()}")
+        cache[i] = r
+        return r
+
+    return go(t)
+
+
+def sympy_poly_to_z3(expr, var_map: dict):
+    """sympy polynomial with rational coefficients in the symbols of var_map (sympy symbol -> z3 var) -> z3 term / Fraction"""
+    import sympy as sp
+
+    expr = sp.expand(expr)
+    total = ZERO
+    for term in sp.Add.make_args(expr):
+        coeff, rest = term.as_coeff_Mul()
+        val = Fraction(int(coeff.p), int(coeff.q))
+        for base, power in rest.as_powers_dict().items():
+            if base == 1:
+                continue
+            val = rmul(val, rpow(var_map[base], int(power)))
+        total = radd(total, val)
+    return total
+
+
 def _split_product(t):
     """z3 term -> (rational constant, list of non-constant factors)"""
     const, factors, stack = Fraction(1), [], [t]
@@ -901,6 +1010,13 @@ def _split_product(t):
             factors.append(u)
     factors.sort(key=lambda f_: f_.get_id())
     return const, factors
+
+
+def _som(t):
+    s_ = z3.simplify(t, som=True, sort_sums=True)
+    if z3.is_rational_value(s_):
+        return Fraction(s_.numerator_as_long(), s_.denominator_as_long())
+    return s_
 
 
 def _dag_size(t, limit: int) -> int:
